@@ -261,25 +261,27 @@ pub fn classify_index_deviation(base_sig: &str, got: &BTreeSet<i64>, exp: &BTree
         let mut cols = BTreeSet::new();
         pred.columns(&mut cols);
         for c in cols {
-            if m.cols[c].ty == ColTy::Bool && indexed.iter().any(|(ic, _)| *ic == c) {
-                cands.insert(("bool", c));
-            }
-            // the plan shows a negated index query (e.g. `x >= 6 AND 6 >= x` is simplified to `x = 6`)
+            // the plan shows a negated index query although the predicate has no syntactic negation on
+            // the column (`b = false` is simplified to `NOT b`, `x >= 6 AND 6 >= x` to `x = 6`)
             if cx.plan_has_not && indexed.iter().any(|(ic, _)| *ic == c) {
                 cands.insert((if m.cols[c].ty == ColTy::ListI32 { "array_has" } else { "eq" }, c));
             }
         }
-        if !cands.is_empty() && extra.iter().all(|id| cands.iter().any(|(_, c)| m.rows[id][*c].is_null())) {
+        // extra rows that are NULL in a candidate column belong to this class; the remaining extra rows
+        // (if any) must be explained by the stale-entry class, otherwise nothing is classified here
+        let is_null_in_cand = |id: &i64| cands.iter().any(|(_, c)| m.rows[id][*c].is_null());
+        let null_extras: Vec<i64> = extra.iter().copied().filter(|id| is_null_in_cand(id)).collect();
+        let rest: Vec<i64> = extra.iter().copied().filter(|id| !is_null_in_cand(id)).collect();
+        let rest_is_stale = !rest.is_empty() && cx.stable_row_ids && rest.iter().all(|id| cx.updated_ids.contains(id));
+        if !cands.is_empty() && !null_extras.is_empty() && (rest.is_empty() || rest_is_stale) {
             let used: BTreeSet<&str> =
-                cands.iter().filter(|(_, c)| extra.iter().any(|id| m.rows[id][*c].is_null())).map(|(k, _)| *k).collect();
-            let kind = if used.contains("eq") || used.contains("in") {
-                "eq-or-in"
-            } else if used.contains("bool") {
-                "bool-column"
-            } else {
-                "array-has"
-            };
+                cands.iter().filter(|(_, c)| null_extras.iter().any(|id| m.rows[id][*c].is_null())).map(|(k, _)| *k).collect();
+            // `NOT b` on a boolean column is NOT([b = true]): same class as a negated equality
+            let kind = if used.contains("eq") || used.contains("in") || used.contains("bool") { "eq-or-in" } else { "array-has" };
             sigs.push(format!("index-extra-rows-all-null-in-indexed-col-under-negated-{kind}"));
+            if rest_is_stale {
+                sigs.push("index-stale-entry-after-update-with-stable-row-ids-extra".into());
+            }
             extra_done = true;
         }
     }
